@@ -2,7 +2,7 @@ SPECIFICATION Spec
 CONSTANTS
   NK = 3
   Vals = {1, 2}
-  H = 3
+  Hs = {1, 2, 3}
   ZeroStart = TRUE
 INVARIANT LevelOK
 PROPERTY RefinesMap
